@@ -756,6 +756,17 @@ static void run_case(vf::Draw& d, vf::Case& c)
         tol2 = draw_tol("tol2_exp");
         maxit2 = draw_maxit("maxit2_kind");
     }
+    // resumed solve: the first call gets a budget somewhere below what convergence needs and the second call continues with the SAME tolerance,
+    // so that it typically starts from an iterate of which some columns have converged and others have not (the first iteration of a call
+    // has its own code path, and it then works on a residual block narrower than the iterate)
+    const bool resume = !second && d.one_in("resumed_solve", 4);
+    if (resume)
+    {
+        second = true;
+        maxit1 = (int) d.range("resume_budget", 1, 3 * (long) n);
+        tol2 = tol1;
+        maxit2 = 300;
+    }
 
     // ---- description / classes ---------------------------------------------------------------------------------------
     {
@@ -781,6 +792,8 @@ static void run_case(vf::Draw& d, vf::Case& c)
         c.cls("constraints");
     if (second)
         c.cls("second_compute");
+    if (resume)
+        c.cls("resumed_solve");
     if (density(P.A) < 0.25)
         c.cls("A_density<25%");
     if (P.cmin < 1e-3L)
